@@ -45,13 +45,13 @@ def run(tier, seed):
               for m in ('pickle', 'copy', 'yaml')]
         # a raw (unserialised) Bundle is only good for ONE restore: the loaded process shares mutable members with it
         rp.append(dict(name='C08_raw_bundle', progs=C.fam(progs), plans=save_plans((1, 2, 3, 4, 5)), alphabet=['restore', 'resume'], k=2, run_kw=rk('none')))
-        outl = [('C08_outl4', om.family(4, 3), om.oracles(4), crash_sets(5, 2), 'pickle', 0),
-                ('C08_outl5', om.sample(om.family(5, 2), 3000, seed), om.oracles(4), crash_sets(6, 3), 'pickle', 0),
+        outl = [('C08_outl4', om.sample(om.family(4, 3), 2500, seed), om.oracles(4), crash_sets(5, 2), 'pickle', 0),
+                ('C08_outl5', om.sample(om.family(5, 2), 1000, seed), om.oracles(4), crash_sets(6, 3), 'pickle', 0),
                 ('C08_outl_yaml', om.sample(om.family(4, 3), 1000, seed), om.oracles(3), crash_sets(4, 1), 'yaml', 0),
-                ('C08_outl_mem', om.sample(om.family(4, 3), 2000, seed + 1), om.oracles(4), crash_sets(5, 2), 'mem', 0),
-                ('C08_outl_mem_late', om.sample(om.family(4, 3), 2000, seed + 2), om.oracles(4), crash_sets(5, 2), 'mem', 1),
-                ('C08_outl_mem_late2', om.sample(om.family(4, 3), 1000, seed + 4), om.oracles(4), crash_sets(5, 2), 'mem', 2),
-                ('C08_outl_pfile_late', om.sample(om.family(4, 3), 1000, seed + 3), om.oracles(4), crash_sets(5, 2), 'pfile', 1)]
+                ('C08_outl_mem', om.sample(om.family(4, 3), 800, seed + 1), om.oracles(4), crash_sets(5, 2), 'mem', 0),
+                ('C08_outl_mem_late', om.sample(om.family(4, 3), 800, seed + 2), om.oracles(4), crash_sets(5, 2), 'mem', 1),
+                ('C08_outl_mem_late2', om.sample(om.family(4, 3), 400, seed + 4), om.oracles(4), crash_sets(5, 2), 'mem', 2),
+                ('C08_outl_pfile_late', om.sample(om.family(4, 3), 400, seed + 3), om.oracles(4), crash_sets(5, 2), 'pfile', 1)]
     # outlines: TLC (stepper save/load inside the run) + every behaviour with real checkpoint/abandon/restore
     viol = 0
     ostates = ogen = oreplayed = 0
